@@ -59,7 +59,9 @@ class CazacBasedChannelEstimator:
             self._normalized_ref_seq = False
 
         self._ue_ref_sequence = ue_ref_seq
-        self._size_multiplier = size_multiplier
+        # Python int: `size_multiplier * Nsc` must not be computed in a
+        # narrow numpy integer type (np.int8(2) * 96 overflows)
+        self._size_multiplier = int(size_multiplier)
 
     @property
     def ue_ref_seq(self) -> np.ndarray:
